@@ -4,6 +4,8 @@ pub mod c04;
 pub mod c05;
 pub mod c09;
 pub mod c11;
+pub mod c13;
+pub mod c13_e2e;
 pub mod dump;
 
 use crate::engine::report::Report;
@@ -15,6 +17,7 @@ pub fn run(id: &str, tier: &str) -> Option<i32> {
         "C05" => { let r = Report::new(id, tier, "model_checking"); c05::check(&r); r }
         "C09" => { let r = Report::new(id, tier, "model_checking"); c09::check(&r); r }
         "C11" => { let r = Report::new(id, tier, "model_checking"); c11::check(&r); r }
+        "C13" => { let r = Report::new(id, tier, "model_checking"); c13::check(&r); r }
         _ => return None,
     };
     Some(r.finish())
@@ -27,6 +30,7 @@ pub fn replay(id: &str, path: &str) -> Option<i32> {
         "C05" => Some(c05::replay(path)),
         "C09" => Some(c09::replay(path)),
         "C11" => Some(c11::replay(path)),
+        "C13" => Some(c13::replay(path)),
         _ => None,
     }
 }
